@@ -387,3 +387,22 @@ def rule_H4(ctx, F):
     ev = Evaluator(F, fn, {"self.initial_chunk_counter": inv})
     a = ev.eval(fn.expr_call(ms[0][1])[2][0] if False else arg, ev.env_at(ms[0][0]))
     ctx.ob(not a.empty and a.lo >= 0 and a.hi <= U64 - 1023, "capacity-offset-in-range", fn.loc, "max_subtree_len(%s) argument range %s" % (show(arg)[:80], a))
+
+
+def rule_H5(ctx, F):
+    """A chunk's counter is ABSOLUTE (offset included): a subtree hasher positioned by set_input_offset must compress
+    chunk i of its input with counter initial_chunk_counter + i.  count() is offset-relative, so every ChunkState built
+    while updating takes its counter from the absolute one it replaces (chunk_counter + 1) or adds initial_chunk_counter
+    back.  Necessary for 'a subtree's CV depends only on its bytes, its offset and the mode key' under any update split."""
+    fn = F.need_fn("Hasher::update_with_join")
+    news = [(bi, val(fn.expr_call(t)), t) for bi, t in fn.calls() if callee_name(t["callee"]) == "ChunkState::new"]
+    ctx.ob(len(news) >= 1, "update-next-chunk-site", fn.loc, "%d ChunkState::new call(s) in update_with_join" % len(news))
+    for bi, e, t in news:
+        c = e[2][1]
+        # absolute = built from the absolute counter being replaced, or adds the offset back
+        has_abs = find_sub(c, P.self_("chunk_state", "chunk_counter")) is not None
+        has_init = find_sub(c, P.self_("initial_chunk_counter")) is not None
+        ok = has_abs or has_init
+        ctx.ob(ok, "update-next-chunk-counter-absolute", t.get("s"),
+               "chunk counter = %s ; required: derived from chunk_state.chunk_counter or adding initial_chunk_counter: "
+               "count() is relative to the input offset" % show(c)[:160])
